@@ -330,7 +330,7 @@ func c05Tier(tier string) int {
 	if tier == "thorough" {
 		return 400000
 	}
-	return 6000
+	return 20000
 }
 
 func c05Run(c *core.Ctx, idx int) {
